@@ -108,6 +108,28 @@ fn fuzz_triage(id: &str, target: &str, file: &str) -> i32 {
             return 2;
         }
     };
+    if target == "strat" {
+        // structured target: rebuild the case from the fuzzer bytes, shrink it under the same signature, save it as an
+        // ordinary replay of the property
+        let Some(o) = dltverif::props::structured::run(id, &data, true) else {
+            println!("NOT-REPRODUCED property={} target=strat artifact={} (no case can be built from this input)", id, file);
+            return 3;
+        };
+        let Err(v) = o.result else {
+            println!("NOT-REPRODUCED property={} target=strat artifact={} (the in-process oracle accepts the case built from this input)", id, file);
+            return 3;
+        };
+        let known = dltverif::runner::load_known(&root());
+        if known.iter().any(|k| k.property == id && v.sig.contains(&k.signature)) {
+            println!("KNOWN-FINDING: property={} signature={} (rediscovered by the structured fuzz target)", id, v.sig);
+            return 0;
+        }
+        let run = Run::new(&root(), id, Tier::Thorough, 0, "exploration");
+        let path = run.report_violation(o.section, o.case, &v);
+        println!("VIOLATION property={} replay={}", id, path);
+        println!("  {}", v.msg.lines().next().unwrap_or(""));
+        return 1;
+    }
     let section = format!("fuzz-{}", target);
     let judge = |d: &[u8]| -> Option<dltverif::runner::Violation> {
         let case = serde_json::json!({"data": dltverif::util::hex(d)});
